@@ -16,17 +16,17 @@ import (
 )
 
 type Config struct {
-	Seed      int64
-	Steps     int
-	Profile   gen.Profile
-	Genesis   string // variant name, or "" when GenesisDoc is given
+	Seed       int64
+	Steps      int
+	Profile    gen.Profile
+	Genesis    string // variant name, or "" when GenesisDoc is given
 	GenesisDoc map[string]json.RawMessage
-	Monitors  []eng.Monitor
-	Rep       *eng.Reporter
-	Raw       bool
-	Bootstrap bool
-	App       *chain.App // optional pre-built app
-	SeedTag   string
+	Monitors   []eng.Monitor
+	Rep        *eng.Reporter
+	Raw        bool
+	Bootstrap  bool
+	App        *chain.App // optional pre-built app
+	SeedTag    string
 	// Quiesce is called every QuiesceEvery transactions with the chain committed (between blocks).
 	QuiesceEvery int
 	Quiesce      func(e *eng.Engine, g *gen.Gen)
